@@ -277,6 +277,7 @@ void check_object(vh::rng_t& rng, const obj_t& o, int points)
     ++g_objects;
     ++g_family[o.family.substr(0, o.family.find(':'))];
     const double radii[] = {1e-3, 1e-2, 1e-1, 1.0, 10.0};
+    points *= g_thorough ? 4 : 3; // the search is cheap: spend the tier's time budget on more points per object
     for (int p = 0; p < points; ++p)
     {
         const auto radius = std::min(radii[p % 5], 0.5 * (o.hi - o.lo));
@@ -633,6 +634,12 @@ void constraint_families(vh::rng_t& rng)
             if (pmode == 1)
                 for (tensor_size_t i = 0; i < n; ++i) P(i, i) -= 2.0;
             if (pmode == 2) P.matrix() = -P.matrix();
+            // non-symmetric P (compatible() accepts any square matrix): triangular with a positive diagonal, so that the
+            // eigenvalues of P are positive whatever the symmetric part looks like
+            const bool nonsym = pmode == 3 && n > 1 && (ikind == 7 || ikind == 8);
+            if (nonsym)
+                for (tensor_size_t i = 0; i < n; ++i)
+                    for (tensor_size_t j = 0; j < n; ++j) P(i, j) = (j < i) ? 0.0 : (i == j ? 0.25 + std::fabs(B(i, j)) : 4.0 * B(i, j));
             const auto r      = rnd();
             const auto radius = 0.25 + 2.0 * rng.unit();
             const auto dim    = static_cast<tensor_size_t>(rng.range(0, n - 1));
@@ -662,7 +669,7 @@ void constraint_families(vh::rng_t& rng)
             }
             const auto size = inner ? inner->size() : n;
             obj_t      o;
-            o.family = std::string("cons:") + kinds[ikind];
+            o.family = std::string("cons:") + kinds[ikind] + (nonsym ? "(ns)" : "");
             o.name   = o.family + "(" + params + ")[" + std::to_string(size) + "D]";
             o.n      = static_cast<int>(size);
             o.convex = ::nano::convex(c);
@@ -905,6 +912,24 @@ void probes()
                 vh::hexf(z(1)) + ") | mu=" + vh::hexf(mu) + " f(x)=" + vh::hexf(fx) + " g=[" + vh::hexf(g(0)) + "," + vh::hexf(g(1)) + "] f(z)=" + vh::hexf(fz) +
                 " f(x)+g.(z-x)+mu/2|z-x|^2=" + vh::hexf(rhs) + " | " + ((fz >= rhs - 1e-12) ? "holds" : "violated"));
         }
+    }
+    // (3) quadratic constraints declare convexity / strong convexity from the eigenvalues of P itself: P = [[1,4],[0,1]] has the
+    //     eigenvalues 1, 1 but 1/2 x'Px = 1/2 (x1^2 + 4 x1 x2 + x2^2) is indefinite
+    {
+        matrix_t P(2, 2);
+        P(0, 0) = 1.0, P(0, 1) = 4.0, P(1, 0) = 0.0, P(1, 1) = 1.0;
+        vector_t q(2), x(2), z(2), g(2);
+        q.full(0.0);
+        x(0) = 1.0, x(1) = -1.0;
+        z(0) = 0.0, z(1) = 0.0;
+        const constraint_t c = constraint::quadratic_inequality_t{{P, q, 0.0}};
+        const auto fx = ::nano::vgrad(c, x, g), fz = ::nano::vgrad(c, z);
+        const auto mu  = ::nano::strong_convexity(c);
+        const auto rhs = fx + g.dot(z - x) + 0.5 * mu * (z - x).squaredNorm();
+        const bool declared = ::nano::convex(c);
+        out(std::string("PROBE quadratic-nonsymmetric | P=[[1,4],[0,1]] q=0 r=0 x=(1,-1) z=(0,0) | convex=") + (declared ? "1" : "0") + " mu=" + vh::hexf(mu) +
+            " f(x)=" + vh::hexf(fx) + " g=[" + vh::hexf(g(0)) + "," + vh::hexf(g(1)) + "] f(z)=" + vh::hexf(fz) + " f(x)+g.(z-x)+mu/2|z-x|^2=" + vh::hexf(rhs) +
+            " | " + ((!declared || fz >= rhs - 1e-12) ? "holds" : "violated"));
     }
     // (2) chained CB3: `if (v1 > max(v2, v3)) ... else if (v2 > max(v1, v3)) ... else <gradient of v3>`: on an exact tie
     //     v1 == v2 > v3 the gradient of the *inactive* piece v3 is returned
